@@ -6,6 +6,19 @@ VERIF = os.path.dirname(HERE)
 ALL = ["C%02d" % i for i in range(1, 19)]
 
 CLAIMS = {
+    "C06": dict(
+        text=("Rocq proof over an abstract world machine (per page: file content, indexed page, content whose hash is "
+              "stored; ZID supply an arbitrary parameter): for EVERY history of page edits (incl. new pages), day changes, "
+              "`db create` and plain `db reindex` runs, of any length, a final plain reindex leaves the index equal to what "
+              "the final files compile to - by induction on the history with the invariant 'the index reflects exactly the "
+              "contents whose hashes are stored'; the clauses about deleted/renamed pages and explicit-path reindexes are "
+              "REFUTED by witnesses (known findings). Tied to the code by running real histories and comparing, after every "
+              "index command and per page, file existence, hash state, index state (vs a fresh compilation) and ZID-less "
+              "notes with the machine; at the end the index and queries are compared with a fresh `db create`."),
+        note=("The machine abstracts compilation, SHA-256 (identity on contents) and SQL storage; event-handler exceptions "
+              "are assumed away. Known findings: deleted/renamed pages survive; explicit-path reindex + write-back hides edits."),
+        technique="Rocq proof (invariant by induction over operation histories on an abstract world machine) + step-wise observational correspondence + fresh-rebuild spec check",
+        design="§5 C06"),
     "C05": dict(
         text=("Rocq proof over the model of the ZID write-back: for items whose words are separated by single spaces the "
               "rewritten first line is 'prefix + ZID + rest' (after kind, after kind+priority, in place of a leading long "
